@@ -2,8 +2,10 @@
   C07Race — compaction racing concurrent writers: C07's quantifier "all interleavings with concurrent
   writes to the keys being compacted".
 
-  Model. The compactor computes its delete actions from a SNAPSHOT `recs0` of the store (tikv: the
-  worker's iterator reads at the fixed timestamp `w.tso`, scanner.go:402) and executes them one call at a
+  Model. The compactor computes its delete actions from a SNAPSHOT `recs0` of the store (all three engines
+  iterate over a snapshot: tikv's iterator reads at the fixed timestamp `w.tso`, scanner.go:402; memkv's
+  `iter.init` copies the range under the store mutex; Badger's iterator lives in a read transaction) and
+  executes them one call at a
   time (`compactKey` = unconditional `Del`, `compactCurrent` = compare-and-delete `DelCurrent`,
   scanner.go:545-571) against the LIVE store. Between any two calls writers commit atomic batches of the
   shapes of creator/naive.go (`create`, `update`) and txn.go (update, delete, retry), each at a freshly
